@@ -295,4 +295,76 @@ def k6(ctx, kr):
     kr.exhaustive = True
     kr.outside = ['programs other than the template shapes; stack depth on deeply nested input']
 
-KERNELS = [k2, k3, k4, k5, k6]
+
+# ---------------------------------------------------------------------------------------------- K7 the preprocessor terminates (bounded unwinding derived from the input)
+START_KEY = '(*@KEY@:DESCRIPTION*)'; END_KEY = '(*@KEY@:END_DESCRIPTION*)'
+_PIECES = [START_KEY, END_KEY, 'x', '\n', '(* c *)']
+
+def _k7_job(job):
+    k, first = job
+    ctx = _CTX; part = Part()
+    P = ctx.program(['ironplc-parser', 'ironplc-dsl'])
+    key = P.find_fn('ironplc-parser', 'preprocessor::preprocess')
+    # unwinding bound: every iteration of a scan over the text must consume at least one byte, and the blanking loop runs once per byte;
+    # the pinned code needs about 11 interpreter steps per input byte (std string scans are contract models), the budget is 2000 per byte
+    maxlen = k * len(END_KEY)
+    M = Machine(P, max_steps=2_000 * maxlen)
+    st = {}
+    def entry(M):
+        choice = [first]
+        for i in range(1, k):
+            v = M.fresh_bv('piece%d' % i, 8); M.declare_domain(v, list(range(len(_PIECES))))
+            c = 0
+            for val in range(len(_PIECES) - 1):
+                if M.branch(v == val): c = val; break
+                c = val + 1
+            choice.append(c)
+        text = ''.join(_PIECES[c] for c in choice); st['src'] = text; st['steps0'] = M.steps
+        if any('does-not-terminate' in f['role'] for f in part.findings): return Str(text)      # one witness per job is enough; do not burn the budget again
+        r = M.call_fn(key, [Ref(Cell(Str(text)))])
+        st['steps'] = M.steps - st['steps0']
+        return r
+    def on_path(M, pr):
+        part.paths += 1; src = st.get('src')
+        if pr.inconclusive:
+            if 'step budget' in pr.inconclusive:
+                part.add('C04/K7/preprocess/does-not-terminate', 'preprocessing does not finish within the unwinding bound (%d interpreter steps for %d bytes) on %r' % (M.max_steps, len(src), src), {'source': src}, ('frontend_hang', (src,)))
+            else: part.inconc(pr.inconclusive)
+            return
+        part.nontrivial += 1
+        if pr.panic: part.add('C04/K7/preprocess/panic', 'preprocessing panics on %r: %s' % (src, pr.panic.msg[:60]), {'source': src}, ('frontend_panic', (src,))); return
+        out = pr.result
+        if isinstance(out, Str) and len(out.b) != len(src.encode()): part.notes.append('length changed for %r' % src)
+        part.maxsteps = max(getattr(part, 'maxsteps', 0), st.get('steps', 0) // max(1, len(src)))
+        if len(part.samples) < 1: part.samples.append({'source': src, 'steps': st.get('steps')})
+        if len(part.validate) < 1 and START_KEY in src: part.validate.append(('frontend_hang', (src,)))
+    M.explore(entry, on_path)
+    part.queries += M.stats['smt']; part.encoded = set(M.encoded); part.models = set(M.models_used)
+    part.notes.append('max interpreter steps per input byte: %d' % getattr(part, 'maxsteps', 0))
+    return part
+
+@replay_factory('frontend_hang')
+def _replay_frontend_hang(src):
+    def rp(ctx):
+        import subprocess
+        try:
+            r = ctx.replay({'cmd': 'tokenize', 'source': src}, timeout=10)
+        except subprocess.TimeoutExpired:
+            return True, {'source': src[-300:], 'result': 'tokenize_program did not return within 10 s'}
+        return ('panic' in r), {'source': src[-300:], 'result': 'returned' if 'panic' not in r else r}
+    return rp
+
+@kernel('K7 preprocessor.terminates')
+def k7(ctx, kr):
+    global _CTX
+    _CTX = ctx
+    k = 4 if ctx.tier == 'quick' else 6
+    kr.bounds = ('preprocess() on every text made of %d pieces, each a symbolic choice out of {DESCRIPTION key, END_DESCRIPTION key, a letter, a line break, an ordinary comment}: returns within the unwinding bound '
+                 '(2000 interpreter steps per input byte; the pinned code needs about 11), never panics' % k)
+    for part in par_map(_k7_job, [(k, f) for f in range(len(_PIECES))] + [(kk, f) for kk in range(1, k) for f in range(len(_PIECES))]): merge_part(kr, part)
+    P = ctx.program(['ironplc-parser', 'ironplc-dsl'])
+    kr.functions = fn_paths(P, getattr(kr, '_enc', set()))
+    kr.exhaustive = True
+    kr.outside = ['texts with more pieces; other pieces (partial keys)']
+
+KERNELS = [k2, k3, k4, k5, k6, k7]
